@@ -94,7 +94,7 @@ def run(tier, corrupt=False):
                     gen.boundary = True        # as many items as each byte/char length field can carry
                     vcases.append({"p": idx[p["name"]], "obj": gen.obj(p["code"], p["name"]), "san0": False})
                     gen.boundary = False
-            model = tlc_given(tmp, progs, types, vcases, "givenrt", withsize=False)
+            model = tlc_given(tmp, progs, types, vcases, "givenrt", withsize=False, loopbound=400)
             sel = [(c, m) for c, m in zip(vcases, model) if m["kind"] == "de" and m["rt_ok"]]
             imp2, vres = run_drivers_parallel(src, wt, accepted, types, [{"kind": "rt", "prog": progs[c["p"] - 1]["name"], "obj": c["obj"], "salt": 0} for c, _ in sel])
             nv = 0
